@@ -169,8 +169,8 @@ impl std::ops::Neg for ApproxFloat {
 
     fn neg(self) -> Self::Output {
         Self {
-            low: -self.low,
-            high: -self.high,
+            low: -self.high,
+            high: -self.low,
         }
     }
 }
